@@ -54,4 +54,21 @@ SeqsUpTo(S, n) == IF n = 0 THEN {<<>>} ELSE SeqsUpTo(S, n - 1) \cup {Append(s, x
 
 ValidLines(nn, nv) ==
     {n \o <<":">> \o v : n \in (SeqsUpTo(TChar, nn) \ {<<>>}), v \in SeqsUpTo(ValueSym, nv)}
+
+(***************************************************************************)
+(* C16 / C03: the framing headers of one head, in wire order.  A framing   *)
+(* header is "te" (Transfer-Encoding: chunked), "cl:<class>" (a            *)
+(* Content-Length whose value is of that class) or "other".  A request is  *)
+(* refused when ANY Content-Length value is not a plain decimal number the *)
+(* server can represent -- not only the one the body would be framed with, *)
+(* and also next to Transfer-Encoding: a parser that goes by another       *)
+(* header must not see a different message (F11).  Otherwise               *)
+(* Transfer-Encoding frames the body, else the (first) Content-Length.     *)
+(***************************************************************************)
+CLBad == {"cl:empty", "cl:plus", "cl:alpha", "cl:mixed", "cl:list", "cl:overflow"}
+FramingHeader == {"te", "cl:valid", "other"} \cup CLBad
+FramingHeads(n) == SeqsUpTo(FramingHeader, n) \ {<<>>}
+FramingClass(h) == IF \E i \in 1..Len(h) : h[i] \in CLBad THEN "r400" ELSE "ok"
+FramedBy(h) == IF \E i \in 1..Len(h) : h[i] = "te" THEN "chunked"
+               ELSE IF \E i \in 1..Len(h) : h[i] = "cl:valid" THEN "cl" ELSE "none"
 =============================================================================
